@@ -135,6 +135,23 @@ def check_proofs(ctx):
         res["errors"].append("axioms outside the allow-list: " + ", ".join(sorted(set(extra))))
     if res["closed"] + (1 if res["axioms"] else 0) * 0 < res["theorems"] - len(set(res["axioms"])) and not res["axioms"]:
         res["errors"].append("only %d of %d theorems reported closed" % (res["closed"], res["theorems"]))
+    # thorough tier: re-check the compiled property file and everything it depends on with the
+    # independent checker coqchk and collect the axioms it reports
+    if ctx.tier == "thorough" and not res["errors"]:
+        t = time.time()
+        q = vlib.sh("timeout 3000 coqchk -silent -o -Q . JS JS.Properties.%s" % pid, cwd=COQ, check=False)
+        res["coqchk_s"] = round(time.time() - t, 1)
+        res["coqchk_exit"] = q.returncode
+        tail = q.stdout[-1500:]
+        res["coqchk_tail"] = tail
+        if q.returncode != 0:
+            res["errors"].append("coqchk failed: " + tail[-600:])
+        else:
+            m = re.search(r"\* Axioms:\s*(.*?)\n\s*\n", tail + "\n\n", re.S)
+            ax = (m.group(1).strip() if m else "")
+            res["coqchk_axioms"] = ax
+            if ax and "<none>" not in ax:
+                res["errors"].append("coqchk reports axioms: " + ax[:300])
     res["ok"] = not res["errors"]
     res["output_tail"] = out[-600:]
     return res
@@ -220,6 +237,7 @@ def main():
         "correspondence": ctx.corr_scopes,
         "known_findings_hit": sorted(ctx.known_hits),
         "notes": ctx.notes,
+        "coqchk": {k: proof.get(k) for k in ("coqchk_exit", "coqchk_s", "coqchk_axioms") if k in proof},
         "exhaustive": False,
     }
     vlib.write_evidence(ctx.pid, ctx.tier, seed, ctx.t0, cov, getattr(mod, "ASSUMPTIONS", []),
